@@ -34,10 +34,19 @@ func main() {
 	genAnch := flag.String("gen-anchors", "", "write the reference table of declarations (alpha-normalisation) to this file and exit")
 	genRen := flag.String("gen-renames", "", "rename sweep: write one overlay directory per declaration under this root and exit")
 	renParams := flag.Bool("rename-params", false, "with -gen-renames: also parameters and named results")
+	genMut := flag.String("gen-mutants", "", "mutation sweep: write one overlay directory per single-site edit under this root and exit")
+	mutOnly := flag.String("mutants-only", "", "with -gen-mutants: only files whose path contains this")
 	noNorm := flag.Bool("no-normalise", false, "do not undo renames before the analysis (debugging)")
 	flag.Parse()
 	if *genAnch != "" {
 		if err := genAnchors(*repo, *genAnch); err != nil {
+			fmt.Println(err)
+			os.Exit(2)
+		}
+		return
+	}
+	if *genMut != "" {
+		if err := genMutants(*repo, *genMut, *mutOnly); err != nil {
 			fmt.Println(err)
 			os.Exit(2)
 		}
